@@ -230,6 +230,20 @@ pub fn build(case: &Case, ctx: &mut CaseCtx) -> Built {
         }
         _ => unreachable!(),
     }
+    // a fifth of the spender listings go through an upgrade first: the state is turned back into a pre-0.14
+    // image (no spender map, an old cw2 version string) and migrated; the listing must be complete afterwards
+    if case.listing == Listing::Cw20SpenderAllowances && case.variant % 5 == 2 {
+        let mut prefix = vec![0u8, "allowance_spender".len() as u8];
+        prefix.extend_from_slice(b"allowance_spender");
+        let doomed: Vec<Vec<u8>> = d.store.data.keys().filter(|k| k.starts_with(&prefix)).cloned().collect();
+        for k in doomed {
+            d.store.data.remove(&k);
+        }
+        let version = ["0.13.4", "0.9.1", "0.2.0", "0.10.3"][(case.variant as usize / 5) % 4];
+        d.store.data.insert(b"contract_info".to_vec(), format!(r#"{{"contract":"crates.io:cw20-base","version":"{version}"}}"#).into_bytes());
+        must(d.tx(|deps, env| cw20_base::contract::migrate(deps, env, cw20_base::msg::MigrateMsg {})).map(|_| ()), "migrate from a pre-0.14 image");
+        ctx.count("cw20_spender_listing_after_migration");
+    }
     d.advance(2, 11);
     Built {
         target: Box::new(Cw20Target { d, listing: case.listing, pivot: pivot.to_string() }),
